@@ -42,7 +42,8 @@ def _img(i):
     from PIL import Image
 
     b = io.BytesIO()
-    Image.new("RGB", (3 + i, 2 + i), (40 * i % 256, 200, 10 * i % 256)).save(b, "PNG" if i % 2 else "JPEG")
+    # every image format the library registers a part class for
+    Image.new("RGB", (3 + i, 2 + i), (40 * i % 256, 200, 10 * i % 256)).save(b, ["JPEG", "PNG", "GIF", "BMP", "TIFF", "PNG"][i % 6])
     return b.getvalue()
 
 
@@ -52,7 +53,7 @@ IMGS = None
 def imgs():
     global IMGS
     if IMGS is None:
-        IMGS = [_img(i) for i in range(4)]
+        IMGS = [_img(i) for i in range(6)]
     return IMGS
 
 
@@ -277,7 +278,31 @@ def start_deck(rng):
     from pptx.opc.packuri import PackURI
 
     prs = Presentation()
-    kind = rng.choice(["default", "default", "scrambled", "scrambled", "jump-only-slide", "foreign-part-rels", "foreign-names-and-duplicate-rels"])
+    kind = rng.choice(["default", "default", "scrambled", "scrambled", "jump-only-slide", "foreign-part-rels", "foreign-names-and-duplicate-rels",
+                       "absolute-targets"])
+    if kind == "absolute-targets":
+        # part-level relationships spelled as other producers spell them: Target="/ppt/media/image1.png" (root-absolute)
+        for k in range(rng.randint(1, 3)):
+            s_ = prs.slides.add_slide(prs.slide_layouts[6])
+            s_.shapes.add_picture(io.BytesIO(imgs()[(k + 1) % len(imgs())]), 0, 0)
+        b = io.BytesIO(); prs.save(b)
+        z = zipfile.ZipFile(io.BytesIO(b.getvalue()))
+        o = io.BytesIO()
+        with zipfile.ZipFile(o, "w", zipfile.ZIP_DEFLATED) as zo:
+            for n in z.namelist():
+                data = z.read(n)
+                if n.endswith(".rels") and n != "_rels/.rels":
+                    d_, f_ = n.rsplit("_rels/", 1)
+                    base = "/" + d_
+                    import posixpath
+
+                    def ab(m):
+                        if "TargetMode" in m.group(0):
+                            return m.group(0)
+                        return m.group(0).replace('Target="%s"' % m.group(1), 'Target="%s"' % posixpath.normpath(posixpath.join(base, m.group(1))))
+                    data = re.sub(r'<Relationship [^>]*?Target="([^"]+)"[^>]*?/>', ab, data.decode("utf-8")).encode("utf-8")
+                zo.writestr(n, data)
+        return Presentation(io.BytesIO(o.getvalue())), "scrambled+absolute-targets"
     if kind == "foreign-names-and-duplicate-rels":
         # what other producers write and the library never does: a media member whose NAME holds a literal percent escape
         # (Picture%201.png), and one relationship present twice under two ids (the same picture placed twice)
